@@ -6,6 +6,8 @@ V = "/verif"
 extra = {  # besides the check of the property the change was written against
     "C01-m1": ["C05", "C20"], "C01-m2": ["C05"], "C02-m3": ["C13", "C03"], "C03-m2": ["C11"], "C04-m2": ["C11"],
     "C05-m2": ["C17"], "C11-m2": ["C04"], "C18-m1": ["C16"], "C20-m1": ["C05"], "C16-m1": ["C05"],
+    # second wave (m3, m4)
+    "C03-m3": ["C02"], "C11-m3": ["C13"], "C11-m4": ["C17"], "C08-m4": ["C01"], "C05-m4": ["C17"],
 }
 only = sys.argv[1:]
 out = {}
